@@ -81,8 +81,14 @@ impl CE {
             CE::Ref(n) => n.to_string(),
             CE::Min(a) => format!("min({})", a.iter().map(|x| x.show(t)).collect::<Vec<_>>().join(", ")),
             CE::Max(a) => format!("max({})", a.iter().map(|x| x.show(t)).collect::<Vec<_>>().join(", ")),
-            CE::Add(a, b) => format!("{} + {}", a.show(t), b.show(t)),
-            CE::Sub(a, b) => format!("{} - {}", a.show(t), b.show(t)),
+            CE::Add(a, b) => format!("{} + {}", a.show_operand(t), b.show_operand(t)),
+            CE::Sub(a, b) => format!("{} - {}", a.show_operand(t), b.show_operand(t)),
+        }
+    }
+    fn show_operand(&self, t: CTy) -> String {
+        match self {
+            CE::Add(..) | CE::Sub(..) => format!("({})", self.show(t)),
+            _ => self.show(t),
         }
     }
     /// evaluation in 64-bit arithmetic (what a 64-bit accumulator would give); used only to keep
@@ -143,7 +149,7 @@ fn sections(t: CTy, tier: Tier) -> Vec<(String, Section)> {
         return out;
     }
     let CTy::Int(it) = t else { unreachable!() };
-    let lits: Vec<i128> = if tier == Tier::Quick { vec![1, it.max()] } else { vec![1, 2, it.max()] };
+    let lits: Vec<i128> = vec![1, 2, it.max()];
     for l in &lits {
         let l = *l;
         out.push((format!("min(A,{l})"), vec![("A", a()), ("B", CE::Min(vec![r("A"), CE::Lit(l)]))]));
@@ -165,6 +171,42 @@ fn sections(t: CTy, tier: Tier) -> Vec<(String, Section)> {
     out.push(("max(P::A,Q::B) direct".into(), vec![("C", CE::Max(vec![a(), b()]))]));
     // declared in an order where a later const is referenced by an earlier-named one
     out.push(("Z=ext;A=Z".into(), vec![("Z", a()), ("A", r("Z"))]));
+    if tier == Tier::Thorough {
+        // every constant expression with <= 2 operators (min / max / + / -) over the atoms
+        // {A (= P::A), Q::B, 1, 2, MAX}, declared as `const A = P::A; const B = <expr>;`
+        let atoms: Vec<CE> = vec![r("A"), b(), CE::Lit(1), CE::Lit(2), CE::Lit(it.max())];
+        let mk = |op: usize, l: CE, rr: CE| match op {
+            0 => CE::Min(vec![l, rr]),
+            1 => CE::Max(vec![l, rr]),
+            2 => CE::Add(bx(l), bx(rr)),
+            _ => CE::Sub(bx(l), bx(rr)),
+        };
+        let mut d1: Vec<CE> = vec![];
+        for op in 0..4 {
+            for l in &atoms {
+                for rr in &atoms {
+                    d1.push(mk(op, l.clone(), rr.clone()));
+                }
+            }
+        }
+        let mut d2: Vec<CE> = vec![];
+        for op in 0..4 {
+            for x in &d1 {
+                for y in &atoms {
+                    d2.push(mk(op, x.clone(), y.clone()));
+                    d2.push(mk(op, y.clone(), x.clone()));
+                }
+            }
+        }
+        for e in d1.into_iter().chain(d2.into_iter()) {
+            let mut ex = BTreeSet::new();
+            e.externals(&mut ex);
+            // an expression over literals only says nothing about constants
+            if format!("{e:?}").contains("Ref") || !ex.is_empty() {
+                out.push((format!("enum:{}", e.show(t)), vec![("A", a()), ("B", e)]));
+            }
+        }
+    }
     out
 }
 
@@ -567,7 +609,7 @@ pub fn run(tier: Tier) -> i32 {
         coverage: json!({
             "evaluations": cnt.evals.load(Ordering::Relaxed) + cnt.error_cases.load(Ordering::Relaxed),
             "distinct_nontrivial": cnt.nontrivial.load(Ordering::Relaxed),
-            "rule": "const sections (external, literal, reference to an earlier const, min/max/+/- incl. nested, 1-3 declarations, two parties) for usize/u8/i8/u16/i64/bool x use templates (array type size, repeat size, single-array-parameter parties, loop count, value use, index, const-expression size) x ALL assignments of the externals over {0,1,2,3,MAX-1,MAX,MIN,-1} (sizes {0,1,2,3,5,MAX}); differential oracle: the same program with the harness-evaluated values (wrapping arithmetic of the constant's type) substituted as literals must have the same party sizes, output width and outputs on every input; failure space: every combination of {fine, missing, 6 wrongly typed literals} for 3 declared constants, with and without extra unknown constants; non-trivial = pair whose outputs take >= 2 distinct values",
+            "rule": "const sections (external, literal, reference to an earlier const, min/max/+/- incl. nested, 1-3 declarations, two parties) for usize/u8/i8/u16/i64/bool x use templates (array type size, repeat size, single-array-parameter parties, loop count, value use, index, const-expression size) x ALL assignments of the externals over {0,1,2,3,MAX-1,MAX,MIN,-1} (sizes {0,1,2,3,5,MAX}); thorough additionally enumerates EVERY constant expression with <= 2 operators (min/max/+/-, nested either side, parenthesised) over the atoms {A = P::A, Q::B, 1, 2, MAX} as `const B = <expr>` for each type; differential oracle: the same program with the harness-evaluated values (wrapping arithmetic of the constant's type) substituted as literals must have the same party sizes, output width and outputs on every input; failure space: every combination of {fine, missing, 6 wrongly typed literals} for 3 declared constants, with and without extra unknown constants; non-trivial = pair whose outputs take >= 2 distinct values",
             "samples": [sample(0), sample(jobs.len() / 2), sample(jobs.len() - 1)],
             "program_assignment_pairs": cnt.pairs.load(Ordering::Relaxed),
             "pairs_skipped_size_over_48": cnt.skipped_big.load(Ordering::Relaxed),
